@@ -1155,6 +1155,18 @@ func (c *SimConn) LogOverflow() bool { return c.logOvf || len(c.out.chunks) == c
 //go:norace
 func (c *SimConn) IsClosed() bool { return c.closed }
 
+// acceptedConn returns the accepting end of the first connection pair (nil before any dial).
+//
+//go:norace
+func (s *Sim) acceptedConn() *SimConn {
+	s.lock()
+	defer s.unlock()
+	if s.nconns < 2 {
+		return nil
+	}
+	return s.conns[1]
+}
+
 //go:norace
 func (c *SimConn) Deadlines() (rd, wr time.Time) { return c.rdl, c.wdl }
 
